@@ -171,6 +171,7 @@ struct Stats {
     sample_last: Option<Value>,
     sample_largest: Option<(usize, Value)>,
     sample_any: Option<Value>,
+    slowest: Option<(f64, Value)>,
 }
 
 impl Stats {
@@ -185,6 +186,7 @@ impl Stats {
         for s in o.samples_first { if self.samples_first.len() < 3 { self.samples_first.push(s); } }
         if o.sample_last.is_some() { self.sample_last = o.sample_last; }
         if self.sample_any.is_none() { self.sample_any = o.sample_any; }
+        if let Some((t, v)) = o.slowest { if self.slowest.as_ref().map(|s| t > s.0).unwrap_or(true) { self.slowest = Some((t, v)); } }
         if let Some((n, v)) = o.sample_largest {
             if self.sample_largest.as_ref().map(|(m, _)| n > *m).unwrap_or(true) { self.sample_largest = Some((n, v)); }
         }
@@ -437,7 +439,10 @@ pub fn check<P: Prop>(tier: Tier, seed: u64) -> Report {
                             };
                         }
                         if stop.load(Ordering::SeqCst) { return Ok(()) }
+                        let t_case = Instant::now();
                         let out = run_guarded::<P>(&case, ctx);
+                        let dt = t_case.elapsed().as_secs_f64();
+                        if dt > 0.5 { let mut st = stats.lock().unwrap(); if st.slowest.as_ref().map(|s| dt > s.0).unwrap_or(true) { st.slowest = serde_json::to_value(&case).ok().map(|v| (dt, v)); } }
                         match &out {
                             Outcome::Fail(m) => {
                                 let k = P::finding_key(&case, m);
@@ -506,6 +511,7 @@ pub fn check<P: Prop>(tier: Tier, seed: u64) -> Report {
         "generated_cases_requested": P::cases(tier),
         "shards": P::shards(tier),
         "exhaustive": false,
+        "slowest_case": total.slowest.as_ref().map(|(t, v)| json!({"seconds": t, "case": v})),
     });
     if let (Some(o), Some(e)) = (coverage.as_object_mut(), P::extra_coverage(tier).as_object()) {
         for (k, v) in e { o.insert(k.clone(), v.clone()); }
